@@ -75,7 +75,11 @@ func (vv *VarVal) Hierarchy() []Symbol {
 
 // Eval the object.
 func (vv *VarVal) Eval(s *Scope, depth int) Object {
-	return vv.Value()
+	value := vv.Value()
+	if value == Unbound {
+		UnboundVariablePanic(s, depth, Symbol(vv.name), "Variable %s is unbound.", vv.name)
+	}
+	return value
 }
 
 func newUnboundVar(name string) *VarVal {
